@@ -158,13 +158,20 @@ Fixpoint assoc (l : list (N * tree)) (k : N) : option tree :=
 
 (* applying one step to a value (what protoreflect gives for that step) *)
 Definition apply_step (t : tree) (s : step) : option tree :=
-  match t, s with
-  | Message fields _ None, SField num => assoc fields num
-  | Message _ true None, SUnknown => Some Scalar
-  | Message _ _ (Some m2), SAny => Some m2
-  | TList elems, SIndex i => nth_error elems (N.to_nat i)
-  | TMap entries, SKey k => assoc entries k
-  | _, _ => None
+  match t with
+  | Scalar => None
+  | Message fields unk any =>
+      match any with
+      | Some m2 => match s with SAny => Some m2 | _ => None end
+      | None =>
+          match s with
+          | SField num => assoc fields num
+          | SUnknown => if unk then Some Scalar else None
+          | _ => None
+          end
+      end
+  | TList elems => match s with SIndex i => nth_error elems (N.to_nat i) | _ => None end
+  | TMap entries => match s with SKey k => assoc entries k | _ => None end
   end.
 
 Fixpoint apply_steps (t : tree) (ss : list step) : option tree :=
